@@ -216,7 +216,7 @@ def forge_case(r):
         cfg, info = ec(r)
         g.ops.append("clinew 0 0 %s 0" % cfg)
     def forged(k):
-        kind = r.randrange(10)
+        kind = r.randrange(11)
         known_c = cn.get(k, r.randrange(U32))
         known_s = sn.get(k, r.randrange(U32))
         pickn = lambda good: r.choice([good, good, (good + 1) % U32, r.randrange(U32), 0])
@@ -241,6 +241,12 @@ def forge_case(r):
             return "psend %d sync %s %s" % (k, r.choice(["-", str(r.randrange(U32))]), r.choice(["-", str(r.randrange(U32))]))
         if kind == 7:
             return "psend %d acks %d %d 0" % (k, r.randrange(U32), r.randrange(U32))
+        if kind == 10:
+            # a data / sync frame numbered from the peer's own SYN nonce (which is where a genuine client's frame ids
+            # start): nothing in it proves that the peer has seen the server's nonce
+            fid = (known_c + r.choice([0, 0, 1, 2, 100, 4095, 4096])) % U32
+            return r.choice(["psend %d data %d %d 1 %d 0 0 0 0 0 aabb" % (k, fid, r.randrange(2), r.choice([0, known_c % 2 ** 20, sn.get(k, 0) % 2 ** 20])),
+                             "psend %d sync %d -" % (k, fid)])
         if kind == 8:
             return "psendraw %d %s" % (k, "".join("%02x" % r.randrange(256) for _ in range(r.choice([0, 4, 5, 9, 25, 100]))) or "-")
         # forged frames towards the attached client (peer 0 only has one)
@@ -345,8 +351,14 @@ def amplify_case(r):
                 # undersized connection requests: type 0, version 3, nonce, limits, then too little (or no) padding;
                 # with a correct CRC (psendfix) or as a truncated datagram with a stale CRC (psendraw)
                 g.nonce()
-                body = "0003" + "".join("%02x" % r.randrange(256) for _ in range(4)) + "001e8480" + "00000064" + "000f4240"
-                body += "00" * r.choice([0, 0, 1, 4, 100, 1000, 1449])
+                # ... of the server's version or of another one, possibly cut inside the header (type, version and
+                # nonce are the first six bytes)
+                body = "00%02x" % r.choice([3, 3, 3, 2, 0, 4, 255]) + "".join("%02x" % r.randrange(256) for _ in range(4)) + "001e8480" + "00000064" + "000f4240"
+                cut = r.choice([None, None, 2, 6, 6, 10, 17])
+                if cut is not None:
+                    body = body[:2 * cut]
+                else:
+                    body += "00" * r.choice([0, 0, 1, 4, 100, 1000, 1449])
                 g.ops.append("%s %d %s" % (r.choice(["psendfix", "psendfix", "psendraw"]), k, body))
             elif a < 0.8:
                 g.ops.append(r.choice(["psend %d hsack %d" % (k, r.randrange(U32)), "psend %d disc" % k, "psend %d discack" % k,
